@@ -1401,6 +1401,10 @@ def target_worker_thread(host: str, port: int, shared_aconf: AuditConf) -> Tuple
     except Exception:
         ret = -1
         string_output = "An exception occurred while scanning %s:%d:\n%s" % (host, port, str(traceback.format_exc()))
+    finally:
+        # Worker threads are re-used for subsequent targets.  Delete this thread's copy of the algorithm databases so that notes added while scanning this target (key sizes, Terrapin warnings, etc.) do not appear in the results of the next one.
+        SSH1_KexDB.thread_exit()
+        SSH2_KexDB.thread_exit()
 
     return ret, string_output
 
